@@ -201,9 +201,12 @@ impl Case {
     }
 
     pub fn encode(&self) -> String {
-        let identity = self.input.iter().enumerate().all(|(i, v)| *v as usize == i);
+        // "#n" = value index i mod 256 at position i; "x.." = hex bytes; else one base-36 digit per element
+        let identity = self.input.iter().enumerate().all(|(i, v)| *v == i as u8);
         let inp: String = if identity && self.input.len() > 9 {
             format!("#{}", self.input.len())
+        } else if self.input.iter().any(|v| *v >= 36) {
+            format!("x{}", self.input.iter().map(|v| format!("{:02x}", v)).collect::<String>())
         } else {
             self.input.iter().map(|v| char::from_digit(*v as u32, 36).unwrap()).collect()
         };
@@ -246,6 +249,8 @@ impl Case {
                         vec![]
                     } else if let Some(n) = v.strip_prefix('#') {
                         (0..n.parse::<usize>().unwrap()).map(|i| i as u8).collect()
+                    } else if let Some(h) = v.strip_prefix('x') {
+                        (0..h.len() / 2).map(|i| u8::from_str_radix(&h[2 * i..2 * i + 2], 16).unwrap()).collect()
                     } else {
                         v.chars().map(|ch| ch.to_digit(36).unwrap() as u8).collect()
                     }
